@@ -406,6 +406,18 @@ var bceTable = map[string]string{
 	"sasl.encodeLengthEncodedStrings|binary.BigEndian.PutUint16(data)": "data has 2+len(part) >= 2 bytes (C13.1 frame)",
 }
 
+// bceTotalLib: standard-library functions the compiler inlines and whose own body contains the slice operation it cannot
+// prove — guarded by the function's own test, for every argument. A report located at a call of one of them (no index or
+// slice expression of the module at that position, callee resolved through the type information, not by its spelling)
+// is about the library's code, whichever module function makes the call. The parse path stays stricter: any report
+// there fails (see the switch below).
+var bceTotalLib = map[string]string{
+	"strings.TrimSuffix": "slices s[:len(s)-len(suffix)] only under HasSuffix(s, suffix); defined for all arguments",
+	"strings.CutSuffix":  "slices s[:len(s)-len(suffix)] only under HasSuffix(s, suffix); defined for all arguments",
+	"strings.TrimPrefix": "slices s[len(prefix):] only under HasPrefix(s, prefix); defined for all arguments",
+	"strings.CutPrefix":  "slices s[len(prefix):] only under HasPrefix(s, prefix); defined for all arguments",
+}
+
 func c023(c *an.Ctx, p *an.Prog) {
 	// (a) compiler-proved bounds: what the prove pass could not show
 	if Overlay == nil {
@@ -431,7 +443,7 @@ func c023(c *an.Ctx, p *an.Prog) {
 			if strings.Contains(m[1], "/examples/") {
 				continue // demo programs, not part of the library or the agent
 			}
-			fname, expr := locateExpr(p, filepath.Join(p.Cfg.Dir, m[1]), line, col, m[4])
+			fname, expr, libCallee := locateExpr(p, filepath.Join(p.Cfg.Dir, m[1]), line, col, m[4])
 			key := fname + "|" + expr
 			if seen[key] {
 				continue
@@ -510,6 +522,8 @@ func c023(c *an.Ctx, p *an.Prog) {
 				c.Fail("C02.3", "bce|"+key, fmt.Sprintf("%s:%d", m[1], line), "an index/slice operation in the hash-file parse path is not proven in bounds by the compiler: "+expr)
 			case ok:
 				c.OK("C02.3", "bce|"+key, fmt.Sprintf("%s:%d", m[1], line), "unproven by the compiler, discharged by hand: "+reason)
+			case bceTotalLib[libCallee] != "":
+				c.OK("C02.3", "bce|"+key, fmt.Sprintf("%s:%d", m[1], line), "unproven by the compiler, but inside the inlined body of "+libCallee+": "+bceTotalLib[libCallee])
 			default:
 				c.Undecided("C02.3", "bce|"+key, fmt.Sprintf("%s:%d", m[1], line), "new unproven bounds check in module code (not in the hand-discharged table): "+expr)
 			}
@@ -574,14 +588,15 @@ func firstLine(s string) string {
 	return s
 }
 
-// locateExpr maps a compiler position to (function name, source expression) using the loaded syntax.
-func locateExpr(p *an.Prog, file string, line, col int, kind string) (string, string) {
+// locateExpr maps a compiler position to (function name, source expression) using the loaded syntax. When the
+// expression is a call of a package-level function of another package, libCallee is that function's full name.
+func locateExpr(p *an.Prog, file string, line, col int, kind string) (string, string, string) {
 	for _, pk := range p.Pkgs {
 		for _, f := range pk.Syntax {
 			if p.Fset.Position(f.Pos()).Filename != file {
 				continue
 			}
-			fnName, expr := "?", "?"
+			fnName, expr, libCallee := "?", "?", ""
 			best := token.Pos(0)
 			ast.Inspect(f, func(n ast.Node) bool {
 				if n == nil {
@@ -625,6 +640,7 @@ func locateExpr(p *an.Prog, file string, line, col int, kind string) (string, st
 					score := token.Pos(rank)*1000000 + e.Pos()
 					if score >= best {
 						best = score
+						libCallee = ""
 						// the operation and the operand it applies to; index/bound expressions are left out so that
 						// data[0:n+2] and data[:end] are the same site
 						switch x := e.(type) {
@@ -638,6 +654,13 @@ func locateExpr(p *an.Prog, file string, line, col int, kind string) (string, st
 								expr += exprSource(p, x.Args[0])
 							}
 							expr += ")"
+							if sel, ok := x.Fun.(*ast.SelectorExpr); ok && pk.TypesInfo != nil {
+								if fo, ok := pk.TypesInfo.Uses[sel.Sel].(*types.Func); ok && fo.Pkg() != nil && fo.Pkg() != pk.Types {
+									if sg, _ := fo.Type().(*types.Signature); sg != nil && sg.Recv() == nil {
+										libCallee = fo.Pkg().Path() + "." + fo.Name()
+									}
+								}
+							}
 						default:
 							expr = exprSource(p, e)
 						}
@@ -645,10 +668,10 @@ func locateExpr(p *an.Prog, file string, line, col int, kind string) (string, st
 				}
 				return true
 			})
-			return fnName, expr
+			return fnName, expr, libCallee
 		}
 	}
-	return "?", "?"
+	return "?", "?", ""
 }
 
 func exprSource(p *an.Prog, e ast.Expr) string {
